@@ -9,13 +9,14 @@ SPEC = {
         'C38_observed_unlocked_implies_unlock_before_partial',
         'C38_secret_implies_unlock_before_refuted', 'C38_lost_lock_witness',
         'C38_secret_implies_unlock_before_partial', 'C38_guards_satisfiable',
+        'C38_timeout_respected_seq', 'C38_unlocked_inside_timeout_seq', 'C38_timed_example',
     ],
     'allowed_axioms': [],
     'shard': 40,
     'check_preamble': 'Require Import C33.C38.Model C33.C38.Spec.\n',
     'rule': 'histories on a real wallet.Wallet (memory DB behind a wrapper that can hold one goroutine at its n-th seed-record read / '
             'password-hash read / batch write; mocked blockchain, store and mempool topics). Requests: SaveSeed, ProcWalletUnLock (right / other / '
-            'malformed / empty password, Timeout 0 / 1 / 2 / 3600 / 86400 / -1 / 9223372037, ticket-only), ProcWalletLock, ProcWalletSetPasswd (right / '
+            'malformed / empty password, Timeout 0 / 1 / 2 / 3600 / 86400 / -1 / 9223372037 / -9223372037 (int64 wrap-around either way), ticket-only), ProcWalletLock, ProcWalletSetPasswd (right / '
             'wrong old, valid / invalid new), ProcDumpPrivkey, GetSeed, ProcSignRawTx, ProcImportPrivKey, ProcSendToAddress, CheckWalletStatus, '
             'IsWalletLocked, GetWalletStatus, GetPrivKeyByAddr, restart (new Wallet on the same DB); passwords from a table of 8 (4 valid). '
             'Streams: seq (one request at a time, 4-70 steps); timed (real timers of 1-2 s, immediate expiry by negative / overflowing timeouts, '
@@ -52,8 +53,9 @@ SPEC = {
         'CAS and the restore of a ProcWalletSetPasswd that started on a locked wallet (no_obs_in_window) and no ProcWalletLock / timer CAS falls '
         'between the load and the CAS of a ProcWalletSetPasswd (no_split_race); without the first the statement is false (known finding 1, reproduced '
         'on the real wallet), without the second it is false in the model (C38_lost_lock_witness) and on the real wallet (known finding 2, reproduced by the hammer)',
-        'the timed spec oracle of the correspondence check reads Timeout = 0 as "no timeout" and negative timeouts as "expires at once"; a negative '
-        'Timeout below -9223372036 overflows to a positive duration in the code (not generated)',
+        'the timed statements (C38_timeout_respected_seq, C38_unlocked_inside_timeout_seq) are about quiescent histories (one request at a time, the timer '
+        'function running as soon as it is due); Timeout <= 0 is not constrained by the timed oracle (0 = no timeout; the code expires small negative '
+        'values at once and turns values below -9223372036 into a ~292-year timeout by int64 wrap-around, as the model does)',
     ],
     'manifest': {
         'level_text': 'partial: for every schedule of atomic steps the mutex is exclusive, every request that returns a stored key, the seed or a '
